@@ -320,8 +320,9 @@ func (e *symEnv) eval(x ast.Expr) (lpoly, bool) {
 				}
 			}
 		}
-		e.err = "unsupported operator in " + core.ExprStr(v)
-		return nil, false
+		// an operator the polynomials do not model (remainder, bit operations on symbols, comparisons): an opaque
+		// term, so that a value computed with it is never mistaken for one computed without it
+		return pSym("(" + a.String() + ")" + v.Op.String() + "(" + b.String() + ")"), true
 	case *ast.UnaryExpr:
 		if v.Op == token.SUB {
 			a, ok := e.eval(v.X)
@@ -534,7 +535,14 @@ func (e *symEnv) run(stmts []ast.Stmt) {
 	for _, s := range stmts {
 		switch st := s.(type) {
 		case *ast.AssignStmt:
-			if len(st.Lhs) == len(st.Rhs) {
+			if st.Tok != token.ASSIGN && st.Tok != token.DEFINE && len(st.Lhs) == 1 && len(st.Rhs) == 1 {
+				// x op= y is x = x op y: evaluated as that expression (an operator the polynomials do not know
+				// leaves an opaque symbol, so the variable no longer equals what it was defined as)
+				opOf := map[token.Token]token.Token{token.ADD_ASSIGN: token.ADD, token.SUB_ASSIGN: token.SUB, token.MUL_ASSIGN: token.MUL, token.QUO_ASSIGN: token.QUO, token.REM_ASSIGN: token.REM, token.AND_ASSIGN: token.AND, token.OR_ASSIGN: token.OR, token.XOR_ASSIGN: token.XOR, token.SHL_ASSIGN: token.SHL, token.SHR_ASSIGN: token.SHR, token.AND_NOT_ASSIGN: token.AND_NOT}
+				if op, ok := opOf[st.Tok]; ok {
+					e.assign(st.Lhs[0], &ast.BinaryExpr{X: st.Lhs[0], Op: op, Y: st.Rhs[0], OpPos: st.TokPos})
+				}
+			} else if len(st.Lhs) == len(st.Rhs) {
 				for i := range st.Lhs {
 					e.assign(st.Lhs[i], st.Rhs[i])
 				}
